@@ -166,16 +166,17 @@ func networkEntries() []*Entry {
 		frames = append(frames, m)
 	}
 	hash := h(4)
+	wo := richWO(types.Kawpow, true)
+	// the first three get the one-field-at-a-time sweep in the quick tier: a request, a block response, a hash response
 	addFrame(pb.EncodeQuaiRequest(7, loc00, hash, &types.WorkObjectBlockView{}))
+	addFrame(pb.EncodeQuaiResponse(11, loc00, &types.WorkObjectBlockView{}, &types.WorkObjectBlockView{WorkObject: wo}))
+	addFrame(pb.EncodeQuaiResponse(14, loc00, &common.Hash{}, hash))
 	addFrame(pb.EncodeQuaiRequest(8, loc00, big.NewInt(99), common.Hash{}))
 	addFrame(pb.EncodeQuaiRequest(9, loc00, hash, &types.WorkObjectHeaderView{}))
 	addFrame(pb.EncodeQuaiRequest(10, loc00, hash, []*types.WorkObjectBlockView{}))
-	wo := richWO(types.Kawpow, true)
-	addFrame(pb.EncodeQuaiResponse(11, loc00, &types.WorkObjectBlockView{}, &types.WorkObjectBlockView{WorkObject: wo}))
 	addFrame(pb.EncodeQuaiResponse(12, loc00, &types.WorkObjectHeaderView{}, &types.WorkObjectHeaderView{WorkObject: wo}))
 	addFrame(pb.EncodeQuaiResponse(13, loc00, []*types.WorkObjectBlockView{}, []*types.WorkObjectBlockView{{WorkObject: wo}, {WorkObject: richWO(types.Progpow, false)}}))
-	addFrame(pb.EncodeQuaiResponse(14, loc00, &common.Hash{}, hash))
-	es = append(es, &Entry{Name: "pb.DecodeQuaiMessage+Request/Response", Protos: frames, Fn: func(in []byte) (bool, error) {
+	es = append(es, &Entry{Name: "pb.DecodeQuaiMessage+Request/Response", Protos: frames, Quick: 3, AllocK: 8 << 20, Fn: func(in []byte) (bool, error) {
 		msg, err := pb.DecodeQuaiMessage(in)
 		if err != nil {
 			return false, err
